@@ -1725,7 +1725,18 @@ func streamIsolation(g *G) { // C07: decoys interleaved with an observed instanc
 		for s := 0; s < 10; s++ {
 			if g.chance(0.7) {
 				d := 1000 + g.intn(3)
-				switch g.intn(4) {
+				switch g.intn(6) {
+				case 4: // a decoy Group with its own routers, Use and a served request
+					gd := 1100 + g.intn(3)
+					g.emit("group %d %s 0 %%_ %%- 0 %%- %%- %%- 0 0", gd, b2s(g.chance(0.5)))
+					g.emit("group-use %d %s", gd, encNatList(g.mwList()))
+					g.emit("group-new %d %d %s %s", gd, 1500+g.intn(5), encB("dg"), g.pick([]string{"any", "pv:v:v1"}))
+					g.serveLine("gserve", gd, "GET", "/v1/x", "", nil)
+				case 5: // a decoy Hosts with an interceptor of its own
+					hd := 1200 + g.intn(3)
+					g.emit("hosts %d %s", hd, encL([]string{"{id:[0-9]+}.decoy.example.com"}))
+					g.emit("hosts-icpt %d %s 1", hd, encB("[0-9]+"))
+					g.emit("hosts-match %d %s", hd, encB("7.decoy.example.com"))
 				case 0:
 					g.routerLine(d, routerOpt{name: "decoy", trace: g.chance(0.5)})
 				case 1:
